@@ -368,6 +368,22 @@ def evalorder_ast(shape):
     return Top(prelude + [Pr(' R=~\\n', [e])])
 
 
+COUNT_PROBES = [
+    ('array-of-constant-arrays', 'let a = array(3, array(2, 0)); a[0][0] <- 7; print("~\\n", a)'),
+    ('array-of-constant-arrays-var', 'let z = 0; let a = array(2, array(2, z)); a[1][1] <- 5; print("~\\n", a)'),
+    ('array-of-constant-objects', 'let a = array(2, object begin let v = 0 end); a[0].v <- 1; print("~\\n", a)'),
+    ('array-of-objects-extending-var', 'let p = 5; let a = array(2, object extends p begin let v = 0 end); a[1].v <- 9; print("~ ~\\n", a, a[0] + 1)'),
+    ('array-of-array-of-arrays', 'let a = array(2, array(2, array(1, 0))); a[0][0][0] <- 1; a[1][0] <- null; print("~\\n", a)'),
+    ('array-of-field-of-var', 'let o = object begin let f = array(1, 0) end; let a = array(2, o.f); a[0][0] <- 3; print("~ ~\\n", a, o)'),
+    ('discarded-field-of-call', 'let c = 0; function mk(k) -> begin c <- c + 1; print("mk~;", k); object begin let v = k end end; mk(1).v; begin mk(2).v; print("mid\\n") end; let i = 0; while i < 2 do begin i <- i + 1; mk(i).v end; print("c=~\\n", c)'),
+    ('discarded-index-of-call', 'let c = 0; function mk(k) -> begin c <- c + 1; array(2, k) end; mk(1)[0]; begin mk(2)[1]; 0 end; if true then mk(3)[0] else 0; print("c=~\\n", c)'),
+    ('discarded-nested-field', 'let c = 0; function mk(k) -> begin c <- c + 1; object begin let v = k end end; mk(mk(2)).v.v; print("c=~\\n", c)'),
+    ('discarded-variable-and-field', 'let o = object begin let v = 1 end; function g(a, b) -> print("~ ~\\n", a, b); g(1, begin o.v; o; 2 end)'),
+    ('loop-condition-count', 'let n = 0; function c() -> begin n <- n + 1; print("c~;", n); n < 3 end; while c() do print("b;"); print(" n=~\\n", n)'),
+    ('object-parent-once', 'let n = 0; function p() -> begin n <- n + 1; null end; let o = object extends p() begin let a = p(); let b = p() end; print("~ ~\\n", n, o)'),
+]
+
+
 def c13(tier):
     chk = Check('C13', tier)
     chk.rule = ('TLC enumerates all typed expression shapes to depth 2 (MC_EvalOrder: calls with 0-3 arguments, method call, operators, object with parent and 0-3 fields, '
@@ -390,6 +406,17 @@ def c13(tier):
     for s in shapes:
         ast = evalorder_ast(s)
         progs.append({'name': 'order:' + ' '.join(s), 'text': unparse(ast), 'ast': strip_marks(ast)})
+    # the same depth-1 shapes in discarded position (their side effects must still happen exactly once)
+    import copy
+    for sh in [x for x in shapes if all(t in ('L', 'T', 'F') for t in x[1:])]:
+        ast = evalorder_ast(sh)
+        shape_expr = ast['es'][-1]['args'][0]
+        ast['es'][-1] = Blk([copy.deepcopy(shape_expr), Pr(' discarded\\n')])
+        ast['es'].append(Wh(Op('<', Asg('n', Op('+', V('n'), I(1))), I(3)), copy.deepcopy(shape_expr)))        # ... and as a loop body
+        progs.append({'name': 'order-discarded:' + ' '.join(sh), 'text': unparse(ast), 'ast': strip_marks(ast)})
+    # evaluation counts that only show through aliasing or allocation: compound initializers built from constants, effectful object expressions of discarded reads
+    for nm, text in COUNT_PROBES:
+        progs.append({'name': 'count:' + nm, 'text': text, 'ast': None})
     outs, vs = judge_programs(chk, exe, progs, wd, 'c13', budget=3000)
     for i in (0, len(progs) // 2, len(progs) - 1):
         st, out = srctrace.status_of(outs[i])
@@ -409,6 +436,10 @@ def dispatch_ast(d):
     prev = 'e'
     for i, defs in enumerate(chain, start=1):
         ms = [Let('tag', I(i))]
+        if 'M' in defs:
+            ms.append(Fun('m', ['a', 'b'], Blk([Pr('M%d;' % i), Op('+', Op('+', V('a'), V('b')), GF(V('this'), 'tag'))])))
+        if 'G' in defs:
+            ms.append(Fun('get', [], Blk([Pr('G%d;' % i), GF(V('this'), 'tag')])))
         if 'm' in defs:
             ms.append(Fun('m', ['a'], Blk([Pr('m%d;' % i), Op('+', V('a'), GF(V('this'), 'tag'))])))
         if '+' in defs:
@@ -505,7 +536,7 @@ def value_ast(d):
 
 def c14(tier):
     chk = Check('C14', tier)
-    chk.rule = ('TLC enumerates (MC_Objects) parent chains of depth 0-3 ending in null/int/bool/array whose levels define one of 6 member sets (m, +, get, set, overriding) x 15 '
+    chk.rule = ('TLC enumerates (MC_Objects) parent chains of depth 0-3 ending in null/int/bool/array whose levels define one of 8 member sets (m, +, get, set, m with another parameter count, get without parameters; overriding) x 15 '
                 'calls on the outermost object (right/wrong argument counts, operators, a[i], a[i] <- v, get/set by name, unknown method, field access), and aliasing templates '
                 'storage kind^2 x target x mutation (+ value semantics of int/bool/null); FMLSource (lookup along the chain, arity check where found, built-ins at the end, shared heap '
                 'cells), run by TLC, prescribes each outcome; `this` under delegation accepted as holder or receiver. Quick: all chains of depth <= 1 + a stride of deeper ones, all '
